@@ -51,10 +51,10 @@ def gen_cases(ctx):
            "dtype": "float64" if (kind in ("prod", "kfl") and rng.rand() < .2) else "float32"}
 
 
-def _cmp(ctx, site, got, want, what, extra=None):
+def _cmp(ctx, site, got, want, what, extra=None, rel=None):
   got = np.asarray(got, dtype=np.float64)
   want = np.asarray(want, dtype=np.float64)
-  tol = core.REL_TOL * max(1.0, float(np.abs(want).max()) if want.size else 1.0)
+  tol = (rel if rel is not None else core.REL_TOL) * max(1.0, float(np.abs(want).max()) if want.size else 1.0)
   ok = got.shape == want.shape and bool(np.all(np.isfinite(got)))
   e = float(np.abs(got - want).max()) if ok and got.size else (0.0 if ok else float("inf"))
   ctx.check(site, ok and e <= tol, "%s: gradient differs from the true derivative by %.3g (tol %.3g)" % (what, e, tol),
@@ -239,31 +239,55 @@ def _run_pwl(ctx, case, st):
   kp = np.concatenate([[0.0], np.cumsum(rng.choice([.5, 1., 4.], size=nk - 1))]) - 1.0
   units = int(rng.choice([1, 2]))
   cyc = bool(rng.rand() < .3 and nk > 2)
-  layer = tfl.layers.PWLCalibration(input_keypoints=kp.tolist(), units=units, is_cyclic=cyc)
+  # float64 layers with keypoints float32 cannot represent, and learned keypoints whose logits collapse a segment to
+  # length exactly 0 (softmax underflow: gap > 104 in float32) - the weight of a collapsed piece is 0 left of it, 1 right
+  dt = "float64" if rng.rand() < .25 else "float32"
+  learned = bool(not cyc and nk > 2 and rng.rand() < .35)
+  if dt == "float64":
+    kp = kp + 0.1
+  layer = tfl.layers.PWLCalibration(input_keypoints=kp.tolist(), units=units, is_cyclic=cyc,
+                                    input_keypoints_type="learned_interior" if learned else "fixed",
+                                    **({} if dt == "float32" else {"dtype": dt}))
   B = 6
-  x = rng.uniform(kp[0] - 1, kp[-1] + 1, size=(B, 1)).astype(np.float32)
+  x = rng.uniform(kp[0] - 1, kp[-1] + 1, size=(B, 1)).astype(np.float32).astype(dt)
   layer(tf.constant(x))
   rows = nk - (1 if cyc else 0)
+  if learned:
+    lg = rng.normal(size=(units, nk - 1)) * 1.5
+    if rng.rand() < .6:
+      lg[:, int(rng.randint(nk - 1))] -= 300.0          # this piece's share underflows to exactly 0
+    layer.interpolation_logits.assign(lg.astype(dt))
   jacs = []
   for rep in range(2):
-    layer.kernel.assign(rng.normal(size=(rows, units)).astype(np.float32) * (1 + 9 * rep))
+    layer.kernel.assign((rng.normal(size=(rows, units)) * (1 + 9 * rep)).astype(dt))
     J, _ = _jac_kernel(tf, layer, x, units)
     jacs.append(J.reshape(B, units, rows, units))
-  kp32 = kp.astype(np.float32).astype(np.float64)
-  lens = np.diff(kp32)
-  ctx.cls("pwl:cyclic=%s" % cyc, "pwl:units=%d" % units)
+  kpq = kp.astype(np.float32).astype(np.float64) if dt == "float32" else kp.astype(np.float64)
+  ctx.cls("pwl:cyclic=%s" % cyc, "pwl:units=%d" % units, "pwl:dtype=" + dt, "pwl:learned=%s" % learned)
   for b in range(B):
-    wts = np.clip((float(x[b, 0]) - kp32[:-1]) / lens, 0, 1)          # weight of every height
-    full = np.concatenate([[1.0], wts])
-    if cyc:
-      full = np.concatenate([full[:-1][:1], full[1:-1] - full[-1]])
     for u in range(units):
+      if learned:
+        w_ = np.exp(lg[u].astype(np.float32 if dt == "float32" else np.float64).astype(np.float64) - lg[u].max())
+        w_[w_ < (1e-45 if dt == "float32" else 0.0)] = 0.0
+        lens = (kpq[-1] - kpq[0]) * w_ / w_.sum()
+        left = kpq[0] + np.concatenate([[0.0], np.cumsum(lens)[:-1]])
+      else:
+        lens = np.diff(kpq)
+        left = kpq[:-1]
+      xv = float(x[b, 0])
+      wts = np.where(lens > 0, np.clip((xv - left) / np.where(lens > 0, lens, 1.0), 0, 1), (xv > left).astype(float))   # weight of every height
+      if learned and np.any((np.abs(xv - left) < 1e-4) | (np.abs(xv - left - lens) < 1e-4)):
+        continue        # on a (float32-rounded) learned keypoint the one-sided derivative is a matter of rounding
+      full = np.concatenate([[1.0], wts])
+      if cyc:
+        full = np.concatenate([full[:-1][:1], full[1:-1] - full[-1]])
       want = np.zeros((rows, units))
       want[:, u] = full
-      _cmp(ctx, "PWLCalibration/dkernel=weights", jacs[0][b, u], want, "PWL d out[%d,%d]/d kernel" % (b, u), {"x": float(x[b, 0])})
+      _cmp(ctx, "PWLCalibration/dkernel=weights", jacs[0][b, u], want, "PWL d out[%d,%d]/d kernel" % (b, u), {"x": float(x[b, 0]), "dtype": dt},
+           rel=(1e-10 if (dt == "float64" and not learned) else None))     # a float64 layer is judged at float64 resolution
       d = float(np.abs(jacs[0][b, u] - jacs[1][b, u]).max())
       ctx.check("PWLCalibration/dkernel-independent-of-kernel", d <= 1e-6, "kernel gradient changes with the kernel value by %.3g" % d)
-  return True, core.digest([case, kp.tolist(), units, cyc])
+  return True, core.digest([case, kp.tolist(), units, cyc, dt, learned])
 
 
 def _run_cat(ctx, case, st):
